@@ -36,8 +36,30 @@ func GenStragglerPlan(t *rapid.T, profile string) *Plan {
 		a.Rules = append(a.Rules, OpRule{Kind: OpCreate, N: rapid.IntRange(1, 8).Draw(t, "create_n"), SetLat: true, ReqLat: req,
 			RespLat: odd(time.Duration(rapid.Int64Range(int64(h/2), int64(3*h)).Draw(t, "resp")))})
 	}
+	takeoverShape := rapid.IntRange(0, 3).Draw(t, "takeover_shape") == 0
+	if takeoverShape {
+		// s0 preempts a lower-priority leader, but the answer to its takeover write is late by more than the
+		// record's lifetime: the record it does not know it owns lapses, it acquires the key afresh, and then
+		// the old answer arrives
+		a.Priority, a.Takeover = rapid.IntRange(1, 3).Draw(t, "prio"), true
+		late := p.TTL + 500*time.Millisecond + time.Duration(rapid.Int64Range(int64(h), int64(10*h)).Draw(t, "late"))
+		a.Rules = append(a.Rules, OpRule{Kind: OpUpdate, N: 0, SetLat: true, ReqLat: 1, RespLat: odd(late)})
+	}
 	p.Instances = []Inst{a}
 	first := time.Duration(h)
+	if takeoverShape {
+		// s0 is a follower of s1 (higher priority) with its watch loop running; s1 hands the key over and an
+		// outside party at once puts a well-formed low-priority record there, which s0 preempts
+		p.Instances = append(p.Instances, Inst{ID: "s1", Group: "g", Priority: 9, Lat: []time.Duration{5, 7}})
+		tv := odd(3 * h)
+		p.Timeline = []Action{{At: 1, Kind: ActStart, Inst: 1}, {At: odd(h), Kind: ActStart, Inst: 0},
+			{At: tv, Kind: ActStopCtx, Inst: 1, DeleteKey: true},
+			{At: tv + 2, Kind: ActExtPut, Inst: -1, Key: "g", Value: []byte(`{"id":"phantom","token":"phantom-token","priority":0}`), Desc: "phantom payload"}}
+		p.Horizon = tv + 3*p.TTL + 20*h + 4*time.Second
+		p.Dice = []float64{0}
+		sortTimeline(p)
+		return p
+	}
 	if rapid.IntRange(0, 3).Draw(t, "was_follower") > 0 {
 		// s0 begins as a follower of s1, which hands the key over: only an instance that has been a follower
 		// runs a watch loop, and only through it does a leader learn of a deletion before its next heartbeat
